@@ -282,24 +282,38 @@ impl Client {
         let pad_res = self.get_vault_from_network(secret_key).await;
         let mut is_new = true;
 
-        let scratch = if let Ok(existing_data) = pad_res {
-            info!("Scratchpad already exists, returning existing data");
+        let scratch = match pad_res {
+            Ok(existing_data) => {
+                info!("Scratchpad already exists, returning existing data");
 
-            info!(
-                "scratch already exists, is version {:?}",
-                existing_data.count()
-            );
+                info!(
+                    "scratch already exists, is version {:?}",
+                    existing_data.count()
+                );
 
-            is_new = false;
+                is_new = false;
 
-            if existing_data.owner() != &client_pk {
+                if existing_data.owner() != &client_pk {
+                    return Err(PutError::VaultBadOwner);
+                }
+
+                existing_data
+            }
+            // Only when the network says there is no record at the vault's address is a new vault created (and paid for).
+            Err(VaultError::Network(NetworkError::GetRecordError(
+                GetRecordError::RecordNotFound,
+            ))) => {
+                trace!("new scratchpad creation");
+                Scratchpad::new(client_pk, content_type)
+            }
+            // Any other failure of the read (timeout, not enough copies, ...) says nothing about whether a vault exists:
+            // starting over from counter 0 would pay again for a version the holders of a newer one refuse.
+            Err(VaultError::Network(err)) => return Err(PutError::Network(err)),
+            // Something is stored at the vault's address that is not a scratchpad owned and signed by this key.
+            Err(err) => {
+                error!("Failed to read the vault before writing to it: {err}");
                 return Err(PutError::VaultBadOwner);
             }
-
-            existing_data
-        } else {
-            trace!("new scratchpad creation");
-            Scratchpad::new(client_pk, content_type)
         };
 
         Ok((scratch, is_new))
